@@ -450,6 +450,13 @@ def rawText (xmin xmax : Txt) (secs : List WSec) : Txt :=
   t "File type = \"ooTextFile\"\nObject class = \"KlattGrid\"\n\n" ++
   t "xmin = " ++ xmin ++ t "\nxmax = " ++ xmax ++ ['\n'] ++ (secs.map WSec.text).flatten
 
+/-- what a zero-valued non-integer tail is rewritten to: `"-0" if tail.startswith("-") else "0"`
+(the sign of a negative zero is kept; `-0` reads back as `-0.0`) -/
+def zeroForm (tail : Txt) : Txt :=
+  match tail with
+  | '-' :: _ => t "-0"
+  | _ => t "0"
+
 /-- one row of `_cleanNumericValues` -/
 def cleanRow (row : Txt) : Txt :=
   let row := rstrip row
@@ -463,7 +470,7 @@ def cleanRow (row : Txt) : Txt :=
       else
         match fclass tail with
         | none => rstrip row
-        | some .zero => rstrip (head ++ t " = 0")
+        | some .zero => rstrip (head ++ t " = " ++ zeroForm tail)
         | some _ => rstrip (head ++ t " = " ++ tail)
     | _ => rstrip row
 
@@ -517,13 +524,19 @@ def parseShortHeader (data : Txt) : R (Txt × Txt × Txt × Txt) := do
   let minT ← floatTok (stripList (← getNeg chunked 4))
   pure (rest, ot, minT, maxT)
 
-/-- `_parseNormalHeader` -/
+def getIdx (l : List Txt) (k : Nat) : R Txt :=        -- `l[k]`, `k ≥ 0`
+  match l[k]? with
+  | some x => pure x
+  | none => throw .indexError
+
+/-- `_parseNormalHeader` (as repaired: the header rows are counted from the top, and a file without an
+eighth chunk — an object without points — has no data) -/
 def parseNormalHeader (data : Txt) : R (Txt × Txt × Txt × Txt) := do
   let chunked := pySplitN '\n' 7 data
   let ot ← objectType chunked
-  let rest ← getNeg chunked 1
-  let maxT ← floatTok (stripList ((pySplit '=' (← getNeg chunked 4)).getLast?.getD []))
-  let minT ← floatTok (stripList ((pySplit '=' (← getNeg chunked 5)).getLast?.getD []))
+  let rest := if 7 < chunked.length then chunked.getD 7 [] else []
+  let maxT ← floatTok (stripList ((pySplit '=' (← getIdx chunked 4)).getLast?.getD []))
+  let minT ← floatTok (stripList ((pySplit '=' (← getIdx chunked 3)).getLast?.getD []))
   pure (rest, ot, minT, maxT)
 
 /-- `_getNextValue(data, start)` → `(value, end)` -/
